@@ -424,6 +424,12 @@ func ruleMetaSlot(c *Ctx, id string) {
 				okOff = false
 				detail = "offset does not derive from p.Id() of the page given to Meta.Write"
 			}
+			if okOff {
+				if msg := offsetTable(c, off); msg != "" {
+					okOff = false
+					detail = msg
+				}
+			}
 			if !dominates(mws[0], ws[0].(ssa.Instruction)) {
 				okOff = false
 				detail = "Meta.Write must precede writeAt"
